@@ -87,35 +87,45 @@ Section Proofs.
     destruct c as [|a [|b c]]; reflexivity.
   Qed.
 
-  Theorem compile_ok (st : stmt) (f : formula A) :
-    exists p, compile st f = Some p /\ init p = St [] (nf f).
+  Theorem compile_spec (st : stmt) (f : formula A) :
+    compile st f = Some (prog_of st (nf f)).
   Proof.
     unfold compile. rewrite normalize_nf. cbn [bind]. rewrite alts_of_dnf. cbn [bind].
     assert (HM : mapM (fun c => branch_of_group (And (map Atom c))) (nf f)
                  = Some (map branch_of (nf f))).
     { apply mapM_some. apply Forall_forall. intros c _. apply branch_of_group_conj. }
-    assert (HI : init (POr (map branch_of (nf f))) = St [] (nf f)).
-    { unfold St. simpl. f_equal. rewrite map_map. apply map_ext. intros c. apply init_branch_of. }
     destruct st.
     - destruct (nf f) as [|c [|c' cs]] eqn:Hnf.
-      + exists (POr []). split; reflexivity.
-      + rewrite branch_of_group_conj. cbn [bind]. eexists. split; [reflexivity|].
-        unfold St. simpl. now rewrite init_branch_of.
-      + rewrite HM. cbn [bind]. eexists. split; [reflexivity|]. exact HI.
+      + reflexivity.
+      + rewrite branch_of_group_conj. reflexivity.
+      + rewrite HM. reflexivity.
     - destruct (nf f) as [|c [|c' cs]] eqn:Hnf.
-      + exists (POr []). split; reflexivity.
-      + rewrite branch_of_group_conj. cbn [bind]. eexists. split; [reflexivity|].
-        unfold St. simpl. now rewrite init_branch_of.
-      + rewrite HM. cbn [bind]. eexists. split; [reflexivity|]. exact HI.
-    - assert (HW : forall alts : list (list A),
-                 match alts with
-                 | _ => bind (mapM (fun c => branch_of_group (And (map Atom c))) alts)
-                             (fun bs => Some (POr bs))
-                 end
-                 = bind (mapM (fun c => branch_of_group (And (map Atom c))) alts)
-                        (fun bs => Some (POr bs))) by reflexivity.
-      exists (POr (map branch_of (nf f))). split; [|exact HI].
-      destruct (nf f) as [|c [|c' cs]]; rewrite HM; reflexivity.
+      + reflexivity.
+      + rewrite branch_of_group_conj. reflexivity.
+      + rewrite HM. reflexivity.
+    - destruct (nf f) as [|c [|c' cs]]; rewrite HM; reflexivity.
+  Qed.
+
+  Lemma init_prog_of (st : stmt) (alts : list (list A)) : init (prog_of st alts) = St [] alts.
+  Proof.
+    assert (HI : init (POr (map branch_of alts)) = St [] alts).
+    { unfold St. simpl. f_equal. rewrite map_map. apply map_ext. intros c. apply init_branch_of. }
+    destruct st; simpl; try exact HI;
+      destruct alts as [|c [|c' cs]]; try exact HI;
+      unfold St; simpl; now rewrite init_branch_of.
+  Qed.
+
+  Theorem compile_ok (st : stmt) (f : formula A) :
+    exists p, compile st f = Some p /\ init p = St [] (nf f).
+  Proof.
+    exists (prog_of st (nf f)). split; [apply compile_spec | apply init_prog_of].
+  Qed.
+
+  (* in every and-fork the WaitForHeads number is the number of member heads *)
+  Lemma branch_of_wait (c ms : list A) (n : nat) :
+    branch_of c = BAnd ms n -> ms = c /\ n = length c.
+  Proof.
+    destruct c as [|a [|b c]]; simpl; intros H; inversion H; auto.
   Qed.
 
   (* ---------- one event ---------- *)
